@@ -820,6 +820,11 @@ impl Session {
             Err(_) => return,
         };
 
+        // One peer (and one job) per address, same as for outgoing connections
+        if self.peers.contains_key(&addr) {
+            return;
+        }
+
         #[cfg(rdest_verif)]
         let verif_addr = addr.clone();
         let mut peer_handler = PeerHandler::new(
